@@ -26,6 +26,7 @@ import (
 	quic "github.com/refraction-networking/uquic"
 	"github.com/refraction-networking/uquic/internal/verif/evlog"
 	"github.com/refraction-networking/uquic/internal/verif/quicworld"
+	"github.com/refraction-networking/uquic/internal/verif/simworld"
 	"github.com/refraction-networking/uquic/internal/verif/specgen"
 	"github.com/refraction-networking/uquic/internal/verif/wiretap"
 	tls "github.com/refraction-networking/utls"
@@ -808,6 +809,68 @@ func TestVerifC11Distribution(t *testing.T) {
 			}
 		}
 		idx++
+		// ---- the same after a Version Negotiation: the client offers v2 first, a Version Negotiation packet
+		// listing only v1 comes back, the dial is re-created; the ClientHello of the re-created attempt must
+		// be randomised like any other
+		if l.Mine(idx) && n <= 3 {
+			total := l.Pick(600, 6000)
+			cs := c11Case{Name: fmt.Sprintf("distribution/dial-after-vn/n=%d", n), Hello: "small", List: append(slices.Clone(lists[n]), specgen.Param{K: "dgram", V: 1200}), Suppress: []uint64{0x20}, Randomize: true, SCID: 3, Dials: total}
+			if c := l.Begin("C11/"+cs.Name, cs); c != nil {
+				synctest.Test(t, func(t *testing.T) {
+					spec, orig, _ := c11Spec(&cs)
+					cp, err := specgen.NewCapturer(quicworld.Options{ClientKind: "spec", Spec: spec, NoServer: true,
+						ClientConf: &quic.Config{Versions: []quic.Version{quic.Version2, quic.Version1}}})
+					if err != nil {
+						c.Violation("C11|harness|world", err.Error(), nil)
+						return
+					}
+					inner := cp.W.Router.GetOnEmit()
+					cp.W.Router.SetOnEmit(func(d *wiretap.DatagramInfo) *simworld.Action {
+						if r := d.Raw; d.Dir == wiretap.C2S && len(r) > 7 && r[0]&0x80 != 0 && binary.BigEndian.Uint32(r[1:5]) == uint32(quic.Version2) {
+							dl := int(r[5])
+							if len(r) > 6+dl {
+								sl := int(r[6+dl])
+								if len(r) >= 7+dl+sl {
+									cp.W.Router.Inject(wiretap.S2C, quicworld.ServerAddr, quicworld.ClientAddr, wiretap.VersionNegotiation(r[6:6+dl], r[7+dl:7+dl+sl], []uint32{1}), 100*time.Microsecond)
+								}
+							}
+						}
+						return inner(d)
+					})
+					perms := map[string]int{}
+					done := 0
+					for dial := 1; dial <= total; dial++ {
+						dc := cp.Dial(3*time.Millisecond, 2*time.Millisecond)
+						var v1 [][]byte
+						for _, r := range dc.Dgrams {
+							if len(r) > 5 && r[0]&0x80 != 0 && binary.BigEndian.Uint32(r[1:5]) == 1 {
+								v1 = append(v1, r)
+							}
+						}
+						w, err := specgen.ReadHello(v1)
+						if err != nil || w.TP == nil {
+							c.Violation("C11|wire|no-client-hello|distribution-after-vn", fmt.Sprintf("dial %d: %d datagrams, %d of them in version 1: %v", dial, len(dc.Dgrams), len(v1), err), nil)
+							break
+						}
+						key := ""
+						for _, p := range w.TP {
+							key += fmt.Sprintf("%d,", slices.IndexFunc(orig, func(o tls.TransportParameter) bool { return o.ID() == p.ID }))
+						}
+						perms[key]++
+						done++
+					}
+					l.Count("dials", int64(done))
+					l.Count("dials_randomised_order_after_version_negotiation", int64(done))
+					c.Eval(fmt.Sprintf("dial-after-vn/n=%d/perms=%d", n, len(perms)))
+					if done == total {
+						c11Judge(c, l, "dial-after-vn", n, total, perms)
+					}
+					cp.Close()
+				})
+				c.End()
+			}
+		}
+		idx++
 	}
 }
 
@@ -947,4 +1010,3 @@ func c11DialName(dial int) string {
 	}
 	return fmt.Sprintf("c%d.test", dial%16)
 }
-
